@@ -67,6 +67,23 @@ impl Serialize for ByHand {
     }
 }
 
+/// every collector driven by hand with n items (what `#[serde(skip)]` fields or manual impls produce: 0, 1, 2 … collected items)
+#[derive(Debug, PartialEq, Clone)]
+struct Collect(u8, Vec<u32>);
+impl Serialize for Collect {
+    fn serialize<S: serde::Serializer>(&self, ser: S) -> Result<S::Ok, S::Error> {
+        use serde::ser::{SerializeStruct, SerializeStructVariant, SerializeTuple, SerializeTupleStruct, SerializeTupleVariant};
+        const NAMES: [&str; 4] = ["a", "b", "c", "d"];
+        match self.0 {
+            0 => { let mut m = ser.serialize_tuple_variant("E", 0, "V", self.1.len())?; for v in &self.1 { m.serialize_field(v)?; } m.end() }
+            1 => { let mut m = ser.serialize_struct_variant("E", 0, "V", self.1.len())?; for (i, v) in self.1.iter().enumerate() { m.serialize_field(NAMES[i], v)?; } m.end() }
+            2 => { let mut m = ser.serialize_tuple(self.1.len())?; for v in &self.1 { m.serialize_element(v)?; } m.end() }
+            3 => { let mut m = ser.serialize_tuple_struct("T", self.1.len())?; for v in &self.1 { m.serialize_field(v)?; } m.end() }
+            _ => { let mut m = ser.serialize_struct("S", self.1.len())?; for (i, v) in self.1.iter().enumerate() { m.serialize_field(NAMES[i], v)?; } m.end() }
+        }
+    }
+}
+
 struct Ctx { cases: usize, bad: Vec<String> }
 
 impl Ctx {
@@ -239,6 +256,16 @@ pub fn serde_check() -> (usize, Vec<String>) {
     c.shape(Bytes(vec![1, 255]), Value::bytes(vec![1u8, 255])); c.shape(m3, sexp!((("" . ()) ("k" 1))));
     c.shape(KeyThenValue(vec![("one".into(), 1), ("two".into(), 2)]), sexp!((("one" . 1) ("two" . 2)))); c.shape(KeyThenValue(vec![]), Value::Null);
     c.shape(ByHand(vec![1, 2, 3]), sexp!((1 2 3))); c.shape(ByHand(vec![]), Value::Null);
+    for n in 0..4usize {
+        let xs: Vec<u32> = (1..=n as u32).collect();
+        let items: Vec<Value> = xs.iter().map(|x| Value::from(*x)).collect();
+        let fields: Vec<Value> = xs.iter().enumerate().map(|(i, x)| Value::cons(Value::symbol(["a", "b", "c", "d"][i]), Value::from(*x))).collect();
+        c.shape(Collect(0, xs.clone()), Value::cons(Value::symbol("V"), Value::list(items.clone())));
+        c.shape(Collect(1, xs.clone()), Value::cons(Value::symbol("V"), Value::list(fields.clone())));
+        c.shape(Collect(2, xs.clone()), Value::vector(items.clone()));
+        c.shape(Collect(3, xs.clone()), Value::vector(items.clone()));
+        c.shape(Collect(4, xs.clone()), Value::list(fields.clone()));
+    }
     c.shape(Some(()), sexp!((()))); c.shape(Some(Unit), sexp!((()))); c.shape(Some(Vec::<u8>::new()), sexp!((()))); c.shape(Some(Some(1u8)), sexp!(((1))));
     // ---- C14 acceptance / rejection of alternative encodings
     c.accepts(Value::vector(vec![Value::from(1), Value::from(2)]), vec![1u32, 2]);
